@@ -392,7 +392,12 @@ From Texel.Gen Require Import MatchGen.
 (** ** tie G2 (loops): matchInnersToPolygons REGENERATED from snap.go on this run (gen/MatchGen.v, translator/match.go)
     is the model's, for EVERY list of polygons, every list of inner rings and every outcome (value, Err
     IndexOutOfRange for a polygon without rings / an empty outer ring).  Translated from the AST: the early return,
-    both [var] declarations, the labelled loop [matchInners] over the inner rings, the loop over a ring's vertices,
+    (repair of F16) the map [cancelledBy := make(map[int]int, lenPolygons)] filled by [for polyI := range polygons]
+    around [for innerI := range innerRings] with [cancelledBy[polyI] = innerI; break] at the first inner ring for which
+    [ringsAreEqual(polygons[polyI][0], innerRings[innerI], true, false)], and in the counting loop
+    [if twinI, cancelled := cancelledBy[polyI]; cancelled && twinI != innerI { continue }];
+    both [var] declarations, the labelled loop [matchInners] over the inner rings with their indices
+    ([for innerI, innerRing := range innerRings]), the loop over a ring's vertices,
     [for polyI := range polygons], the per-polygon counting [containsPerPolyI.Set(polyI, containsPerPolyI.Value(polyI)+1)],
     [matchCount == 1] with [continue matchInners] out of the vertex loop, [containsPerPolyI.Len() == 0] with
     [continue], the lazily computed [polyISortedByOuterAreaDesc] ([== nil]: an [option]), both in-place updates
@@ -408,7 +413,12 @@ From Texel.Gen Require Import MatchGen.
       [mapslicehelp.OrderedMapKeys] = [map fst], [mapslicehelp.ReverseClone] = [rev];
     - go-ordered-map: [orderedmap.New[int, uint](orderedmap.WithCapacity[int, uint](n))] = [[]], [Set] = [om_set],
       [Value] = [om_get], [Len] = [om_len] (Snap/MatchSupport.v; [Set(k, Value(k)+1)] is PROVED to be [om_incr]);
-    - [for i := range s] over [go_indices s]; [log.Printf] = nothing; [int]/[uint] exact Z; slices as values. *)
+    - [for i := range s] over [go_indices s]; [for i, x := range s] over [go_enum s]; [log.Printf] = nothing;
+      [int]/[uint] exact Z; slices as values;
+    - (repair of F16) [ringsAreEqual] = the model's (signature checked; tied on its own below:
+      [C06_source_tie_ring_helpers]); the Go [map[int]int] = [imap] of Snap/MatchSupport.v: [make] = [[]], [m[k] = v] =
+      [im_set], [v, ok := m[k]] = [im_get] / [im_has] (the filling loops are PROVED to compute the model's [cancelledBy],
+      the comma-ok test to be the model's [skipCancelled]). *)
 Theorem C06_source_tie_match_inners : forall polys inners hasInners,
   gen_matchInnersToPolygons polys inners hasInners = matchInnersToPolygons polys inners.
 Proof. exact gen_matchInnersToPolygons_spec. Qed.
@@ -417,14 +427,19 @@ Print Assumptions C06_source_tie_match_inners.
 (** the regenerated code runs: two nested shells; one hole inside both (no single winner: it goes to the smaller
     shell through the lazily sorted indices), one hole inside the big shell only (single winner at its first vertex:
     [continue matchInners]), one "hole" outside both (turned into an outer, reversed); a polygon without rings makes
-    the scan fail as the Go code panics; without polygons every inner ring is turned *)
+    the scan fail as the Go code panics; without polygons every inner ring is turned; (F16) the polygon whose outer
+    ring [P1] is equal to the inner ring [T] (same points, opposite direction, another starting point) is cancelled: it
+    takes [T] only, and the hole [A] inside it goes to the shell around it (it went to [P1] before the repair) *)
 Example C06_source_tie_match_inners_example :
   let P0 := [(0,0); (100,0); (100,100); (0,100)] in
   let P1 := [(10,10); (50,10); (50,50); (10,50)] in
   let A := [(20,20); (20,30); (30,30); (30,20)] in
   let B := [(60,60); (60,70); (70,70); (70,60)] in
   let C := [(200,200); (200,210); (210,210)] in
+  let T := [(50,50); (50,10); (10,10); (10,50)] in
   gen_matchInnersToPolygons [[P0]; [P1]] [A; B; C] true = Ok [[P0; B]; [P1; A]; [rev C]] /\
+  gen_matchInnersToPolygons [[P0]; [P1]] [A; T; B] true = Ok [[P0; A; B]; [P1; T]] /\
+  gen_matchInnersToPolygons [[P1]] [T; A] true = Ok [[P1; T]; [rev A]] /\
   gen_matchInnersToPolygons [[P0]; []] [A] true = Err IndexOutOfRange /\
   gen_matchInnersToPolygons [] [A; B] false = Ok [[rev A]; [rev B]] /\
   gen_matchInnersToPolygons [[P0]; [P1]] [] false = Ok [[P0]; [P1]].
